@@ -160,6 +160,48 @@ Apply(s, o) ==
       [] o.op = "cmp"     -> R2(m, CompareOp(s, PartnerStr(o.lit)))
       [] o.op = "stat"    -> R2(m, <<Size(s), Capacity(s), StrOf(s)>>)
 
+\* ---- the operations explored in every state (ml: longest string of the scope)
+NLit == Len(Lits)
+Chars == {0, 1, 2}
+Huge == {[k |-> "max", n |-> d] : d \in 0..3}
+Pos(s) == {N(p) : p \in 0..(Size(s) + 1)}
+Cnt(s) == {N(c) : c \in 0..(Size(s) + 1)}
+LitLen(l) == Len(CStr(Lits[l], 0))
+PLen(l) == IF l = 0 THEN 0 ELSE IF l = 8 THEN 3 ELSE LitLen(l)
+Room(s, ml) == ml - Size(s)
+F == BOOLEAN
+OpSetM(s, ml) ==
+    {[op |-> "setstr", lit |-> l, fail |-> f] : l \in {x \in 1..NLit : LitLen(x) <= ml}, f \in F}
+    \cup {[op |-> "insch", pos |-> p, cnt |-> N(c), c |-> ch, fail |-> f] :
+             p \in Pos(s), c \in {x \in 0..2 : x <= Room(s, ml)}, ch \in Chars, f \in F}
+    \cup {[op |-> "insch", pos |-> p, cnt |-> h, c |-> 1, fail |-> f] : p \in {N(0), N(Size(s))}, h \in Huge \cup {[k |-> "max", n |-> Size(s)], [k |-> "max", n |-> Size(s) + 1]}, f \in F}
+    \cup {[op |-> "insch", pos |-> [k |-> "max", n |-> 0], cnt |-> N(1), c |-> 1, fail |-> f] : f \in F}
+    \cup {[op |-> "appch", cnt |-> N(1), c |-> ch, fail |-> f] : ch \in {x \in Chars : Room(s, ml) >= 1}, f \in F}
+    \cup {[op |-> "appch", cnt |-> h, c |-> 1, fail |-> f] : h \in Huge, f \in F}
+    \cup {[op |-> "insstr", pos |-> p, lit |-> l, fail |-> f] : p \in Pos(s), l \in {x \in 1..NLit : LitLen(x) <= Room(s, ml)}, f \in F}
+    \cup UNION {{[op |-> "insstrn", pos |-> p, lit |-> l, cnt |-> N(c), fail |-> f] :
+                    p \in Pos(s), c \in {x \in 0..4 : x <= Room(s, ml) /\ x <= Len(Lits[l])}, f \in F} : l \in 1..NLit}
+    \cup {[op |-> "insstrn", pos |-> N(0), lit |-> 4, cnt |-> h, fail |-> f] : h \in Huge, f \in F}
+    \cup {[op |-> "appstr", lit |-> l, fail |-> f] : l \in {x \in 1..NLit : LitLen(x) <= Room(s, ml)}, f \in F}
+    \cup UNION {{[op |-> "appstrn", lit |-> l, cnt |-> N(c), fail |-> f] :
+                    c \in {x \in 0..2 : x <= Room(s, ml) /\ x <= Len(Lits[l])}, f \in F} : l \in 1..NLit}
+    \cup {[op |-> "ins", pos |-> p, lit |-> l, fail |-> f] : p \in Pos(s), l \in {x \in 0..(NLit + 1) : PLen(x) <= Room(s, ml)}, f \in F}
+    \cup {[op |-> "app", lit |-> l, fail |-> f] : l \in {x \in 0..(NLit + 1) : PLen(x) <= Room(s, ml)}, f \in F}
+    \cup {[op |-> "erase", pos |-> p, cnt |-> c, fail |-> FALSE] : p \in Pos(s) \cup {[k |-> "max", n |-> 0]}, c \in Cnt(s) \cup Huge}
+    \cup {[op |-> "resize", t |-> t, fail |-> f] : t \in {N(x) : x \in 0..ml} \cup Huge, f \in F}
+    \cup {[op |-> "reserve", t |-> t, fail |-> f] : t \in {N(x) : x \in 0..ml} \cup Huge, f \in F}
+    \cup {[op |-> "clear", fail |-> FALSE]}
+    \cup {[op |-> "swap", lit |-> l, fail |-> FALSE] : l \in {x \in 0..(NLit + 1) : PLen(x) <= ml}}
+    \cup {[op |-> "substr", pos |-> p, cnt |-> c, lit |-> l, fail |-> f] :
+             p \in Pos(s) \cup {[k |-> "max", n |-> 0]}, c \in Cnt(s) \cup Huge, l \in {0, 2, 4}, f \in F}
+    \cup {[op |-> "at", t |-> t, fail |-> FALSE] : t \in Pos(s) \cup Huge}
+    \cup {[op |-> "findch", c |-> ch, pos |-> p, fail |-> FALSE] : ch \in Chars, p \in Pos(s) \cup Huge}
+    \cup {[op |-> "findstr", lit |-> l, pos |-> p, fail |-> FALSE] : l \in 1..NLit, p \in Pos(s) \cup Huge}
+    \cup {[op |-> "find", lit |-> l, pos |-> p, fail |-> FALSE] : l \in {0, 4, 8}, p \in Pos(s)}
+    \cup {[op |-> "cmpstr", lit |-> l, fail |-> FALSE] : l \in 1..NLit}
+    \cup {[op |-> "cmp", lit |-> l, fail |-> FALSE] : l \in {0, 4, 6, 8}}
+    \cup {[op |-> "stat", fail |-> FALSE]}
+
 (***************************************************************************)
 (* Contract (C10): a reference string (sequence of characters) and the     *)
 (* textbook meaning of each edit on it.                                    *)
